@@ -179,6 +179,11 @@ bool same_stats(const ml::stats_t& a, const tensor1d_t& e)
 
 bool after(void* p, const int* ch, const int n)
 {
+    static uint64_t runs = 0;
+    if ((++runs & 63U) == 0U)
+    {
+        purge_tmpdir(); // one log file per (trial, fold) and execution
+    }
     auto&       c   = *static_cast<context_t*>(p);
     const auto& res = c.result;
     const auto  F   = static_cast<tensor_size_t>(c.cfg.folds);
